@@ -421,6 +421,7 @@ func main() {
 		iterCase(vers[i%3], o, hwm, items, budgets)
 	}
 	tokCases(gen.New(), thorough)
+	logAppendCases(thorough)
 	expiredCases(r, thorough)
 	readerCases(r, thorough)
 }
